@@ -164,7 +164,10 @@ def _read_chunked(data: bytes, pos: int, msg: Msg):
             try:
                 trailers, pos, inv = _read_fields(data, pos, "trailer section")
             except Ambiguous as e:
-                e.kind = "chunk"  # a problem inside the body phase: the head may long have been relayed (streaming)
+                # a framing/name problem inside the body phase: the head may long have been relayed (streaming).
+                # A bare LF line terminator stays a pure syntax matter here as in the header section.
+                if e.kind != "syntax":
+                    e.kind = "chunk"
                 raise
             msg.trailers = trailers
             msg.invalid_octets += inv
